@@ -92,6 +92,7 @@ impl Source {
         self.0.get("Uploaders").map(|s| {
             s.split(',')
                 .map(|s| s.trim().to_string())
+                .filter(|s| !s.is_empty())
                 .collect::<Vec<String>>()
         })
     }
@@ -696,7 +697,12 @@ impl Package {
     pub fn tags(&self, tag: &str) -> Option<Vec<String>> {
         self.0
             .get(tag)
-            .map(|s| s.split(',').map(|s| s.trim().to_string()).collect())
+            .map(|s| {
+                s.split(',')
+                    .map(|s| s.trim().to_string())
+                    .filter(|s| !s.is_empty())
+                    .collect()
+            })
     }
 
     /// Set the tags of the package.
@@ -838,6 +844,7 @@ impl Release {
         self.0.get("Changelogs").map(|s| {
             s.split(',')
                 .map(|s| s.trim().to_string())
+                .filter(|s| !s.is_empty())
                 .collect::<Vec<String>>()
         })
     }
